@@ -184,7 +184,7 @@ PROPS["C20"] = {
     "claim": {
         "technique": "runtime monitoring: on-wire probes (payload size of every TCP segment vs configured path MTU, fingerprints at first and last probe), UDP don't-fragment matrix on the datagram-fate oracle",
         "text": "TCP: every payload segment seen by the probe that is the first hop of the sender's route, in both directions, must carry at most the configured per-pair MTU, and every segment arriving at the destination node must be an unaltered copy of a transmitted one. UDP: with don't-fragment set (through either option name) an over-MTU datagram must be accepted by send_to yet never appear on the wire; cleared or untouched it must be delivered whole; in-MTU datagrams are unaffected.",
-        "note": "Per-pair symmetric MTUs so both readings of 'the path MTU the configuration reports for the two endpoints' coincide; no NAT in these scenarios.",
+        "note": "Per-pair symmetric MTUs so both readings of 'the path MTU the configuration reports for the two endpoints' coincide; a third of the TCP cases put the connector behind a NAT whose external address has a different MTU (the real endpoints' MTU must apply), a third bind the connector explicitly first; UDP senders also set unrelated socket options after the don't-fragment decision; a quarter of the UDP worlds are IPv6-only.",
         "ref": "DESIGN.md 3/C20",
     },
     "rule": "TCP cases = (MTU from 1 to 9000 per address pair, 0-2 hops, payload lengths at k*MTU-1/0/+1 in both directions, write/read patterns); UDP cases = C08 scenarios with MTU from 1 to 9000, "
@@ -217,9 +217,9 @@ PROPS["C13"] = {
 
 _OPS_RULE = ("cases = the complete product (base scenario) x (event boundary k, every k in the thorough tier, every 6th in quick) x (participating object) x "
              "(cancel, close, destroy, supersede with a same-kind operation, move-construct then destroy the source) plus one 'throw from the next handler' per boundary; "
-             "15 base scenarios cover timer waits, TCP connect (to listener / to nothing), read, write blocked on the window, wait-for-read, the three accept overloads "
-             "(client present / later / never), UDP receive_from / receive / wait_read / deferred wait_write, TCP and UDP resolvers, and bulk transfers through lossy hops "
-             "whose drops are reported long after the send. The boundary is reached through the step hook. Non-trivial = the intervention hit an operation that was "
+             "18 base scenarios cover timer waits (groups of equal expiries), TCP connect (to listener / to nothing), read, write blocked on the window, wait-for-read, I/O started "
+             "before the handshake completed, the three accept overloads (client present / later / never), UDP receive_from / receive / wait_read / deferred wait_write (20 us and 20 ms windows), "
+             "TCP and UDP resolvers, bulk transfers through lossy hops whose drops are reported long after the send, and scripted repeated drops of the same segment behind the first hop. The boundary is reached through the step hook. Non-trivial = the intervention hit an operation that was "
              "outstanding on the object; distinct = distinct (scenario, object, boundary, intervention).")
 
 PROPS["C04"] = {
